@@ -719,7 +719,6 @@ func (r *Run) checkFiltersSafe(deep bool) (f *wx.Failure) {
 	return r.checkFilters(deep)
 }
 
-
 // noInv disables the structural invariant oracle (VERIF_NO_INV=1), to demonstrate that defects are also
 // caught through the public API alone.
 var noInv = os.Getenv("VERIF_NO_INV") != ""
